@@ -51,6 +51,10 @@ type StructCase struct {
 	// Warm: the type of the source is validated once (result ignored) before anything else of the
 	// call happens - in particular before the late registration
 	Warm bool `json:"warm,omitempty"`
+	// ReReg (with LateReg and Warm): the late name is registered ONCE BEFORE the warm-up validation (function
+	// "global") and AGAIN, with another function ("global2"), where the late registration happens: the name
+	// resolves to the function registered last
+	ReReg bool `json:"rereg,omitempty"`
 	// Many: type and value are those of a many-types case (see ManySpec); Root and Val are empty then
 	Many *ManySpec `json:"many,omitempty"`
 }
@@ -184,6 +188,9 @@ func (c *StructCase) build() reflect.Value {
 func (c *StructCase) walkCfg() model.WalkCfg {
 	cfg := model.WalkCfg{Tag: c.tagName(), Unscoped: c.Unscoped, PerType: map[reflect.Type]map[string]string{},
 		CallFns: map[string]bool{}, GlobalFns: globalFnNames, RePats: c.RePats, Env: fsEnv}
+	if c.ReReg {
+		cfg.GlobalLevel = map[string]string{c.LateReg: "global2"}
+	}
 	for name, rm := range c.PerType {
 		cfg.PerType[lib.Types[name]] = rm
 	}
@@ -205,11 +212,21 @@ func (c *StructCase) call(src interface{}) error {
 			vs.SetRule(toRM(c.PerType[n]), c.typeToken(lib.Types[n], false))
 		}
 	}
+	late := func() {
+		if c.ReReg {
+			valid.SetCustomerValidFn(c.LateReg, customFn("global2", c.LateReg))
+			return
+		}
+		register(c.LateReg)
+	}
+	if c.ReReg {
+		register(c.LateReg)
+	}
 	if c.Warm {
 		_ = valid.ValidateStruct(src, c.tagName())
 	}
 	if c.LateReg != "" && c.Entry != "VStruct" && c.Entry != "" {
-		register(c.LateReg)
+		late()
 	}
 	switch c.Entry {
 	case "Struct":
@@ -278,7 +295,7 @@ func (c *StructCase) call(src interface{}) error {
 		vs.SetValidFn(n, customFn("call", n))
 	}
 	if c.LateReg != "" {
-		register(c.LateReg)
+		late()
 	}
 	return vs.Valid(src)
 }
